@@ -30,6 +30,11 @@ REPO = Path("/repo")
 VERIF = Path("/verif")
 SKIP_FUNCS = {"__repr__", "__str__", "_matlab_str", "viz", "_repr_html_", "__deepcopy__", "order", "_matches_order"}
 PROPS = {json.loads(l)["id"]: json.loads(l)["anchors"]["files"] for l in (VERIF / "properties.jsonl").read_text().splitlines() if l.strip()}
+# files a property's check exercises although properties.jsonl does not list them under that property
+EXTRA_PROPS = {"C05": ["pyttb/khatrirao.py", "pyttb/export_data.py", "pyttb/import_data.py", "pyttb/gcp/optimizers.py", "pyttb/gcp/samplers.py"],
+               "C02": ["pyttb/khatrirao.py"], "C18": ["pyttb/gcp/fg_setup.py"], "C13": ["pyttb/gcp/fg_setup.py"], "C19": ["pyttb/gcp/fg_setup.py"]}
+for _p, _fs in EXTRA_PROPS.items():
+    PROPS[_p] = list(PROPS[_p]) + [f for f in _fs if f not in PROPS[_p]]
 # cheap checks first
 COST = {"C16": 3, "C07": 4, "C12": 5, "C20": 5, "C19": 5, "C10": 7, "C14": 7, "C17": 8, "C02": 8, "C04": 5, "C08": 10, "C13": 10,
         "C01": 13, "C03": 15, "C15": 15, "C05": 10, "C09": 18, "C18": 22, "C06": 25, "C11": 25}
